@@ -77,8 +77,10 @@ func calculateCurrentAge(
 	// member (RFC 9111 §5.1); the rest is discarded, not the whole field.
 	ageField, _, _ := strings.Cut(h.Get("Age"), ",")
 	if v, valid := RawDeltaSeconds(textproto.TrimString(ageField)).Value(); valid {
-		// Saturated delta-seconds; capped so that adding delays cannot overflow.
-		ageVal = min(v, maxAgeValue)
+		// The decoder saturates at the greatest representable value, like it does for max-age (an
+		// age capped lower than a lifetime can be would make a response older than its lifetime
+		// look fresh); the sums below saturate as well.
+		ageVal = v
 	}
 	apparentAge := max(responseTime.Sub(date), 0)
 	responseDelay := max(responseTime.Sub(requestTime), 0)
@@ -106,9 +108,6 @@ func SaturatingAdd(a, b time.Duration) time.Duration {
 	}
 	return s
 }
-
-// maxAgeValue caps the Age header value at 2^31 seconds (RFC 9111 §1.2.2).
-const maxAgeValue = (1 << 31) * time.Second
 
 // FreshnessCalculator describes the interface implemented by types that can
 // calculate the freshness of a cached response based on request and response
